@@ -447,6 +447,53 @@ func isCaseHead(b *ssa.BasicBlock, cases map[string]*ssa.BasicBlock) bool {
 
 // everySelectionCounted: in the walker's loop, each type-switch case (Field, FragmentSpread, InlineFragment) reaches a call of the
 // saturating adder on every path back to the loop header; the only accepted skip is the Field case's test of the field's type name.
+// isIntrospectionNameTest: the fact compares a definition's Name with a string constant (the accepted skip of introspection types).
+func isIntrospectionNameTest(f an.Fact) bool {
+	if f.Op != token.EQL {
+		return false
+	}
+	if _, isStr := an.ConstString(f.Y); !isStr {
+		return false
+	}
+	fa, ok := loadAddr(f.X).(*ssa.FieldAddr)
+	return ok && fieldNameOf(fa) == "Name"
+}
+
+// falseOnlyForIntrospection: function h (package complexity) returns false as its idx-th result only from returns dominated by
+// the introspection name test; every other return yields the constant true there.
+func falseOnlyForIntrospection(h *ssa.Function, idx int) bool {
+	if h.Pkg == nil || h.Pkg.Pkg.Path() != pkgComplex || len(h.Blocks) == 0 {
+		return false
+	}
+	n := 0
+	for _, r := range an.Returns(h) {
+		if h.Recover != nil && r.Block() == h.Recover {
+			continue
+		}
+		if idx >= len(r.Results) {
+			return false
+		}
+		n++
+		k, isC := an.ReturnedValue(r, idx).(*ssa.Const)
+		if !isC || k.Value == nil {
+			return false
+		}
+		if k.Value.String() == "true" {
+			continue
+		}
+		ok := false
+		for _, f := range an.Facts(r) {
+			if isIntrospectionNameTest(f) {
+				ok = true
+			}
+		}
+		if !ok {
+			return false
+		}
+	}
+	return n > 0
+}
+
 func (c *Ctx) everySelectionCounted(fn *ssa.Function) {
 	adder := c.W.Func(pkgComplex, "safeAdd")
 	if adder == nil {
@@ -512,9 +559,13 @@ func (c *Ctx) everySelectionCounted(fn *ssa.Function) {
 							tr = append(append([]string{}, trail...), c.condText(iff, b.Succs[0] == s))
 							// accepted skip: the Field case's comparison of a definition's Name with a string constant (introspection types)
 							f := an.FactOf(an.Guard{Cond: iff.Cond, Branch: b.Succs[0] == s})
-							if kind == "Field" && f.Op == token.EQL {
-								if _, isStr := an.ConstString(f.Y); isStr {
-									if fa, ok := loadAddr(f.X).(*ssa.FieldAddr); ok && fieldNameOf(fa) == "Name" {
+							if kind == "Field" && isIntrospectionNameTest(f) {
+								continue
+							}
+							// the same skip decided inside a same-package helper that reports it through a boolean result
+							if kind == "Field" && f.Op == token.ILLEGAL && f.Neg {
+								if ex, ok := f.X.(*ssa.Extract); ok {
+									if hc, ok := ex.Tuple.(*ssa.Call); ok && hc.Call.StaticCallee() != nil && falseOnlyForIntrospection(hc.Call.StaticCallee(), ex.Index) {
 										continue
 									}
 								}
